@@ -43,13 +43,18 @@ impl LintedFile {
     ) -> String {
         // Iterate through the patches, building up the new string.
         let mut str_buff = String::new();
+        // Patches and slices are in the same order, so only patches after the
+        // last one used are candidates. This matters when several patches
+        // share a (zero length) source slice: each slice gets its own patch.
+        let mut next_patch = 0;
         for source_slice in source_file_slices.iter() {
             // Is it one in the patch buffer:
             let mut is_patched = false;
-            for patch in source_patches.iter() {
+            for (idx, patch) in source_patches.iter().enumerate().skip(next_patch) {
                 if patch.source_slice == *source_slice {
                     str_buff.push_str(&patch.fixed_raw);
                     is_patched = true;
+                    next_patch = idx + 1;
                     break;
                 }
             }
